@@ -252,6 +252,9 @@ def main_check(prop_id, tier):
     run = Runner(mod, tier, seed)
     corpus = load_corpus(prop_id)
     gen = list(mod.gen_cases(run.rng, tier))
+    if tier == "thorough":       # cheap generators are drawn several times in the thorough tier (the PRNG state carries on)
+        for _ in range(int(getattr(mod, "THOROUGH_ROUNDS", 1)) - 1):
+            gen += list(mod.gen_cases(run.rng, tier))
     run.run_cases(corpus + gen, with_model=driver_ok)
     n_primary = len(run.cases)
     n_nontrivial = len(run.nontrivial)
